@@ -227,9 +227,16 @@ struct State {
     since_starved: u64,
     /// GrowLate: steps the workers have run since the spawner reached a lag
     grow_steps: u64,
+    /// the spawner's most recent decision point
+    last_sp: Option<u16>,
     quiet_ctr: u64,
-    /// slots that found a lock of a dependency taken and yielded: not eligible until another slot has made a step
+    /// slots that found a lock of a dependency taken and yielded: not eligible until other slots have made
+    /// enough steps (exponential back-off: 2, 4, .. 64 steps of progress after consecutive failed attempts)
     spinning: Vec<bool>,
+    spin_fail: Vec<u32>,
+    spin_wake: Vec<u64>,
+    /// number of non-spin steps made so far
+    progress: u64,
 }
 
 impl State {
@@ -251,8 +258,12 @@ impl State {
             pct_points: vec![],
             since_starved: 0,
             grow_steps: 0,
+            last_sp: None,
             quiet_ctr: 0,
             spinning: vec![],
+            spin_fail: vec![],
+            spin_wake: vec![],
+            progress: 0,
         }
     }
 }
@@ -387,7 +398,7 @@ fn do_abort(st: &mut State, reason: &str) {
     }
 }
 
-fn runnable(st: &State) -> Vec<usize> {
+fn runnable(st: &mut State) -> Vec<usize> {
     let all: Vec<usize> = st
         .slots
         .iter()
@@ -395,13 +406,24 @@ fn runnable(st: &State) -> Vec<usize> {
         .filter(|(_, s)| s.status == Status::Runnable)
         .map(|(i, _)| i)
         .collect();
-    // a slot that spins on a lock of a dependency cannot make progress until somebody else has run
-    let awake: Vec<usize> = all.iter().copied().filter(|i| !st.spinning.get(*i).copied().unwrap_or(false)).collect();
-    if awake.is_empty() {
-        all
-    } else {
-        awake
+    // a slot that spins on a lock of a dependency is not eligible until the others have made some steps
+    let awake = |st: &State| -> Vec<usize> {
+        all.iter()
+            .copied()
+            .filter(|i| !st.spinning.get(*i).copied().unwrap_or(false) || st.spin_wake.get(*i).copied().unwrap_or(0) <= st.progress)
+            .collect()
+    };
+    let a = awake(st);
+    if !a.is_empty() || all.is_empty() {
+        return a;
     }
+    // everybody waits for a lock: like a discrete-event clock, jump to the earliest wake-up, so that every waiting
+    // thread gets its turn (the one whose turn it is may be any of them)
+    let next = all.iter().map(|i| st.spin_wake.get(*i).copied().unwrap_or(0)).min().unwrap_or(0);
+    if next > st.progress {
+        st.progress = next;
+    }
+    awake(st)
 }
 
 /// Which slot does Starve(k) starve right now: ordinal k within the newest frame, 255 = the spawner.
@@ -463,7 +485,7 @@ fn policy_choice(st: &mut State, me: usize, r: &[usize]) -> usize {
         }
         Policy::GrowLate(k) => {
             // where is the spawner? look at its last decision point in the log
-            let last_sp = st.log.iter().rev().find(|e| e.slot == 0 && e.kind == Kind::Sp).map(|e| e.stage);
+            let last_sp = st.last_sp;
             let at_lag = last_sp == Some(SpawnerPoint::BeforeLag as u16);
             let workers: Vec<usize> = r.iter().copied().filter(|s| *s != 0).collect();
             if at_lag && !workers.is_empty() && st.grow_steps < k as u64 {
@@ -667,16 +689,19 @@ fn event_ex(kind: Kind, stage: u16, a: u64, b: u64, may_yield: bool, spin: bool)
             if st.spinning.len() < st.slots.len() {
                 let n = st.slots.len();
                 st.spinning.resize(n, false);
+                st.spin_fail.resize(n, 0);
+                st.spin_wake.resize(n, 0);
             }
             if spin {
                 st.spinning[me] = true;
+                st.spin_fail[me] = (st.spin_fail[me] + 1).min(6);
+                st.spin_wake[me] = st.progress + (1u64 << st.spin_fail[me]);
             } else {
                 // own steps: steps in which the thread did something (waiting for a lock does not count)
                 st.slots[me].steps += 1;
-                // progress: every spinner may look at its lock again
-                for x in st.spinning.iter_mut() {
-                    *x = false;
-                }
+                st.progress += 1;
+                st.spinning[me] = false;
+                st.spin_fail[me] = 0;
             }
             if may_yield {
                 yield_token(st, me);
@@ -846,6 +871,7 @@ fn hook_spawner_point(p: SpawnerPoint, n: usize) {
         a: n as u64,
         b: f as u64,
     });
+    st.last_sp = Some(p as u16);
     match p {
         // `Runner::run` joins at the end of the scope: the caller continues when every worker is done.
         // The other two drivers join one handle after the other (BeforeJoinOne), so that the calling thread
